@@ -166,6 +166,7 @@ def vShow : PyU.V → String
   | .dict ks vs => "D[" ++ vShowL ks ++ "|" ++ vShowL vs ++ "]"
   | .bytesIO d p => "O" ++ Hex.encode d ++ ":" ++ toString p
   | .enum c v => "E" ++ toString c.cid ++ ":" ++ toString v
+  | .inst c vs => "I" ++ toString c.cid ++ "[" ++ vShowL vs ++ "]"
 termination_by structural x => x
 def vShowL : List PyU.V → String
   | [] => ""
